@@ -10,6 +10,10 @@ CLAIMS = {
          "Decides the mechanism the property attributes atomicity to: every device write of gpt.Table.Write is classified by provenance and must occur in the order backup array, backup header, primary array, primary header, each followed by a call reaching Sync() whose error is propagated; in the reader every success return is dominated by the header-CRC and entries-CRC equality edges, content errors are wrapped in the type gpt.Read tests, and on that edge the backup at (size/lbs)-1 is read. The behaviour follows from these premises by the written argument in the evidence; the run-time behaviour itself is not executed or model-checked.",
          "Assumes sector-atomic writes, Sync() as a durability barrier, CRC-32 collision freedom, go/ssa + CHA soundness. Path-insensitive: a guard that is infeasible at run time is not seen.",
          "DESIGN.md §4 C09"),
+ "C11": ("call-graph reachability (CHA) with constant-actual folding + provenance of write receivers + dominance of gate tests",
+         "Decides the mechanism: every device WriteAt receiver comes from Storage.Writable(); Writable() implementations return a file only on the !readOnly edge; ReadOnly maps to flags without write bits and reaches the backend's readOnly field; every Writable() error is propagated; every iso9660/squashfs mutator (incl. OpenFile for each write flag, Finalize, File.Write) explored with the workspace != \"\" edges refused reaches no host/device mutation and no success return; from ~80 reading entry points (derived from the FileSystem/File/Table/Partition interfaces, OpenFile folded with O_RDONLY) no WriteAt/Writable()/os mutation is reachable; every constructor and Disk.Partition/WritePartitionContents passes Writable() before success. Does not decide byte equality of the image; says nothing about no-op mutators on FAT/ext4 that succeed without writing.",
+         "Assumes CHA soundness (no reflection/unsafe reaching writes), that a caller-supplied Storage honours its own mode, and that io.Writer arguments of reading functions are the caller's sink. Path-insensitive except for constant folding.",
+         "DESIGN.md §4 C11"),
 }
 
 NOT_APPLICABLE = {
